@@ -25,7 +25,7 @@ type AbsentCase struct {
 	What  string          `json:"what"`
 }
 
-var untidyTexts = []string{" é A-1.", "ES ES-1", "a  b", "-x-", "İß x", "x\ty", "0088:12 34", " A/B.c "}
+var untidyTexts = []string{" é A-1.", "ES ES-1", "a  b", "-x-", "İß x", "x\ty", "0088:12 34", " A/B.c ", "0088:0099:1234567", " Bizkaia "}
 
 // freeStrings lists member paths (at most depth names) below an object node
 // that end in a string not restricted to a fixed list or format.
@@ -127,6 +127,9 @@ func enumAbsent(yield func(AbsentCase) bool) {
 		}
 		return yield(AbsentCase{Doc: doc, Ptr: ptr, Value: raw, What: what})
 	}
+	// members are added once per published type and member for every set of
+	// addons the examples use: normalisers differ with them
+	context := ""
 	var walk func(doc string, v any, sch pubschema.Node, ptr string) bool
 	walk = func(doc string, v any, sch pubschema.Node, ptr string) bool {
 		switch t := v.(type) {
@@ -147,7 +150,7 @@ func enumAbsent(yield func(AbsentCase) bool) {
 					}
 					continue
 				}
-				key := fmt.Sprintf("%p.%s", rs.S, name)
+				key := fmt.Sprintf("%s|%p.%s", context, rs.S, name)
 				if seen[key] || strings.HasPrefix(name, "$") {
 					continue
 				}
@@ -174,10 +177,8 @@ func enumAbsent(yield func(AbsentCase) bool) {
 				case "object":
 					var paths [][]string
 					freeStrings(s, target, 2, nil, &paths)
-					for i, sp := range paths {
-						// two texts per position, rotating through the list
-						for k := 0; k < 2; k++ {
-							txt := untidyTexts[(2*i+k)%len(untidyTexts)]
+					for _, sp := range paths {
+						for _, txt := range untidyTexts {
 							inst := withLeaf(s, target, valid, sp, txt)
 							if !emit(doc, cptr, "untidy:"+name+"/"+strings.Join(sp, "/"), wrap(inst)) {
 								return false
@@ -209,6 +210,13 @@ func enumAbsent(yield func(AbsentCase) bool) {
 		tree, err := jsontree.Decode(d.JSON)
 		if err != nil {
 			continue
+		}
+		context = ""
+		if m, ok := tree.(map[string]any); ok {
+			if a, ok := m["$addons"]; ok {
+				raw, _ := json.Marshal(a)
+				context = string(raw)
+			}
 		}
 		if !walk(d.Path, tree, pubschema.Node{}, "") {
 			return
